@@ -9,14 +9,22 @@
 (* NumPixels (the mask acts on the channel dimension).  `src` is the       *)
 (* provenance of every output element that is a pure copy, `dep` the set   *)
 (* of input elements an output element may depend on.                      *)
-(* Anchors: coupling.py __init__ (mask <= 0 / > 0), forward, inverse.      *)
+(* Mask values are rationals k / MaskDen (the constructor compares with 0,  *)
+(* it does not round).  `bounded`: the elementwise transform is defined on *)
+(* a box only (piecewise couplings with tails = None); `outside` the input *)
+(* features whose values lie outside that box; `outcome` what the call     *)
+(* does - identity features are not the elementwise transform's business,  *)
+(* so only transformed (and, with an unconditional transform, identity)    *)
+(* features outside the box make the call raise InputOutsideDomain.        *)
+(* Anchors: coupling.py __init__ (mask <= 0 / > 0), forward, inverse,      *)
+(* PiecewiseCouplingTransform._coupling_transform (tails None / linear).   *)
 (***************************************************************************)
 EXTENDS Integers, Sequences, FiniteSets, TLC
 
-CONSTANTS MaxD, MaskValues, NumPixels
+CONSTANTS MaxD, MaskValues, MaskDen, NumPixels
 
-VARIABLES phase, mask, layout, uncond, dir, ident, trans, src, dep, condIn
-vars == <<phase, mask, layout, uncond, dir, ident, trans, src, dep, condIn>>
+VARIABLES phase, mask, layout, uncond, dir, ident, trans, src, dep, condIn, bounded, outside, outcome
+vars == <<phase, mask, layout, uncond, dir, ident, trans, src, dep, condIn, bounded, outside, outcome>>
 
 D == Len(mask)
 Pixels == IF layout = "img" THEN 1..NumPixels ELSE {1}
@@ -29,25 +37,32 @@ SortedSeq(S) ==
 SeqRange(s) == {s[k] : k \in 1..Len(s)}
 
 MaskValuesSmall == {-1, 0, 1, 2}
+\* in halves: -1, 0, 1/2, 1, 2
+MaskValuesHalves == {-2, 0, 1, 2, 4}
+ASSUME MaskDen \in Nat \ {0}
 
 Init ==
   /\ phase = "choose" /\ mask = <<>> /\ layout = "2d" /\ uncond = FALSE /\ dir = "fwd"
   /\ ident = <<>> /\ trans = <<>> /\ src = <<>> /\ dep = <<>> /\ condIn = {}
+  /\ bounded = FALSE /\ outside = {} /\ outcome = "none"
 
 \* constructor: CouplingTransform.__init__
-Construct(m, lay, u) ==
+Construct(m, lay, u, b) ==
   /\ phase = "choose"
-  /\ mask' = m /\ layout' = lay /\ uncond' = u
+  /\ mask' = m /\ layout' = lay /\ uncond' = u /\ bounded' = b
   /\ ident' = SortedSeq({i \in 1..Len(m) : m[i] <= 0})
   /\ trans' = SortedSeq({i \in 1..Len(m) : m[i] > 0})
   /\ phase' = "built"
-  /\ UNCHANGED <<dir, src, dep, condIn>>
+  /\ UNCHANGED <<dir, src, dep, condIn, outside, outcome>>
 
 \* forward / inverse: what each output element is a copy of (src, 0 = computed) and may depend on
-Apply(d) ==
+Checked == SeqRange(trans) \cup (IF uncond THEN SeqRange(ident) ELSE {})
+Apply(d, out) ==
   /\ phase = "built"
-  /\ dir' = d
-  /\ LET idSplit == [k \in 1..Len(ident) |-> ident[k]]          \* inputs[:, identity_features]
+  /\ dir' = d /\ outside' = out
+  /\ outcome' = IF bounded /\ out \cap Checked # {} THEN "InputOutsideDomain" ELSE "Value"
+  /\ IF bounded /\ out \cap Checked # {} THEN src' = <<>> /\ dep' = <<>> /\ condIn' = {} ELSE
+     LET idSplit == [k \in 1..Len(ident) |-> ident[k]]          \* inputs[:, identity_features]
          trSplit == [k \in 1..Len(trans) |-> trans[k]]          \* inputs[:, transform_features]
          \* the conditioner sees the identity split: forward the raw one, inverse the one
          \* recovered by the unconditional inverse - elementwise, so the same input elements
@@ -64,16 +79,18 @@ Apply(d) ==
                      IF OutFeature(f).kind = "identity" THEN {<<OutFeature(f).from, p>>}
                      ELSE {<<OutFeature(f).from, p>>} \cup cIn]]
   /\ phase' = "applied"
-  /\ UNCHANGED <<mask, layout, uncond, ident, trans>>
+  /\ UNCHANGED <<mask, layout, uncond, ident, trans, bounded>>
 
 Masks == UNION {[1..n -> MaskValues] : n \in 2..MaxD}
 
 DoConstruct ==
-     phase = "choose" /\ \E m \in Masks, lay \in {"2d", "img"}, u \in BOOLEAN :
+     phase = "choose" /\ \E m \in Masks, lay \in {"2d", "img"}, u \in BOOLEAN, b \in BOOLEAN :
         /\ \E i \in 1..Len(m) : m[i] <= 0          \* both sides non-empty
         /\ \E i \in 1..Len(m) : m[i] > 0
-        /\ Construct(m, lay, u)
-DoApply == phase = "built" /\ \E d \in {"fwd", "inv"} : Apply(d)
+        /\ Construct(m, lay, u, b)
+\* which inputs lie outside the box: none, all identity features, or the first transformed one
+Outsides == IF bounded THEN {{}, SeqRange(ident), {trans[1]}} ELSE {{}}
+DoApply == phase = "built" /\ \E d \in {"fwd", "inv"}, out \in Outsides : Apply(d, out)
 
 Next == DoConstruct \/ DoApply
 
@@ -81,7 +98,8 @@ Spec == Init /\ [][Next]_vars
 
 -----------------------------------------------------------------------------
 Built == phase \in {"built", "applied"}
-Applied == phase = "applied"
+Called == phase = "applied"
+Applied == Called /\ outcome = "Value"
 IdSet == SeqRange(ident)
 TrSet == SeqRange(trans)
 
@@ -98,6 +116,9 @@ OwnInputOnly == Applied => \A f \in TrSet : \A p \in Pixels :
                    /\ \A e \in dep[f][p] : e = <<f, p>> \/ e[1] \in IdSet
 \* the conditioner never sees a transformed feature
 ConditionerSeesIdentityOnly == Applied => \A e \in condIn : e[1] \in IdSet
+\* C07: identity features are never the reason for a rejection
+IdentityNeverRejected == (Called /\ ~uncond /\ outside \subseteq IdSet) => outcome = "Value"
+RejectedIffCheckedOutside == Called => (outcome = "InputOutsideDomain" <=> (bounded /\ outside \cap Checked # {}))
 \* hence the Jacobian is triangular up to the permutation (identity features first)
 Triangular == Applied => \A f \in 1..D : \A p \in Pixels : \A e \in dep[f][p] :
                  e = <<f, p>> \/ (e[1] \in IdSet /\ f \in TrSet)
